@@ -161,9 +161,28 @@ class Disk:
     def abspath(self, p):
         return os.path.join(self.root, p) if p else self.root
 
+    LINK_DEST = "lnk.dest"      # a plain file of the harness' own that nothing else ever reads or changes
+    LINK_DATA = b"destination of hand-made symlinks\n"
+
+    def symlink(self, p):
+        """The user puts a symlink to a regular file at p (replacing whatever is there)."""
+        ap = self.abspath(p)
+        os.makedirs(os.path.dirname(ap), exist_ok=True)
+        dest = self.abspath(self.LINK_DEST)
+        if not os.path.exists(dest):
+            with open(dest, "wb") as f:
+                f.write(self.LINK_DATA)
+            t = self.clock.next()
+            os.utime(dest, (t, t))
+        if os.path.lexists(ap):
+            os.unlink(ap)
+        os.symlink(os.path.relpath(dest, os.path.dirname(ap)), ap)
+
     def write(self, p, data, fresh_inode=False):
         ap = self.abspath(p)
         os.makedirs(os.path.dirname(ap), exist_ok=True)
+        if os.path.islink(ap):
+            os.unlink(ap)          # never write through a hand-made symlink
         if fresh_inode:
             tmp = ap + ".rvnew"
             with open(tmp, "wb") as f:
@@ -186,6 +205,9 @@ class Disk:
 
     def remove(self, p):
         try:
+            if os.path.islink(self.abspath(p)):
+                os.unlink(self.abspath(p))
+                return
             os.unlink(self.abspath(p))
         except FileNotFoundError:
             pass
